@@ -9,12 +9,18 @@ Case:
    "enum_seed": int                      seed of the shuffle applied to every directory enumeration
    "hashseeds": [int..]                  (subset of cases) subprocess runs under these PYTHONHASHSEED values
    "perturb": {"idx": i, "file": FILE}   (C19) replace file i, read again -> "out2"
+   "history": [{"call": CALL, "variant": spelling}, ...]   calls made BEFORE `call`, in this order, in the same process on the
+                                         same tree (other roots - a directory inside a root or the directory above it -, other
+                                         lookups, targets, flags, spellings).  `files` is written from the point of view of `call`;
+                                         for a history call every file belongs to the outermost directory of that call that
+                                         contains it (`reattribute`).  Every call of the sequence is judged by the oracle as if it
+                                         were the only one: no call may depend on what was read before.
   }
   DIR  = canonical path of a directory as a list of components below the case's temp dir, e.g. ["w0", "alpha"]
   TEXT = {"g": bool (text does not parse), "gk": int, "secs": [{"stmts": [STMT..], "mode": MODE}] (two = service)}
   STMT = ["ref", name, major, minor] | ["prim", bits] | ["print", n] | ["bad", k];  MODE = ["sealed"] | ["extent", bits] | ["none"]
 
-Outcome: {"out": OUT, "out2": OUT?, "inv": [descriptions of spellings / enumeration orders / hash seeds that changed the outcome],
+Outcome: {"out": OUT, "out2": OUT?, "hist": [{"out": OUT, "nest": [..]}, ...] (one per history call), "inv": [descriptions of spellings / enumeration orders / hash seeds that changed the outcome],
           "nest": [nested types that differ from the stand-alone type]}
   OUT = {"res": "ok", "direct": [TY..], "transitive": [TY..] | null, "prints": [n..]}
       | {"res": "invalid" | "internal" | "foreign:<cls>", "prints": [...], "soft_cls": ..., "soft_path": ...}
@@ -144,19 +150,51 @@ def write_file(tmp: Path, f: dict) -> None:
     p.write_text(render_text(f["text"]))
 
 
+def call_dirs(call: dict) -> typing.List[list]:
+    out = [list(x) for x in call.get("lookups", [])] + [list(x) for x in call.get("roots", [])]
+    if call["fn"] == "ns":
+        out.append(list(call["root"]))
+    return out
+
+
 def all_dirs(case: dict) -> typing.List[list]:
     """Every directory that is mentioned: argument directories and the directories of the files (stable order)."""
+    if case.get("alldirs") is not None:
+        return [list(d) for d in case["alldirs"]]
     out: typing.List[list] = []
     call = case["call"]
-    cand = [f["dir"] for f in case["files"]] + list(call.get("lookups", [])) + list(call.get("roots", []))
-    if call["fn"] == "ns":
-        cand.append(call["root"])
+    cand = [f["dir"] for f in case["files"]] + call_dirs(call)
     if case.get("perturb"):
         cand.append(case["perturb"]["file"]["dir"])
+    for h in case.get("history", []):
+        cand += call_dirs(h["call"])
     for d in cand:
         if list(d) not in out:
             out.append(list(d))
     return out
+
+
+def reattribute(files: typing.List[dict], call: dict) -> typing.List[dict]:
+    """The files from the point of view of `call`: each belongs to the outermost directory of the call that contains it
+    (same indices; a file under none of the directories is left alone - the call cannot see it)."""
+    dirs = call_dirs(call)
+    out = []
+    for f in files:
+        comps = list(f["dir"]) + list(f["sub"])
+        owners = [d for d in dirs if comps[: len(d)] == d]
+        if owners:
+            o = min(owners, key=len)
+            f = dict(f)
+            f["dir"], f["sub"] = list(o), comps[len(o):]
+        out.append(f)
+    return out
+
+
+def step_case(case: dict, k: int) -> dict:
+    """History call k as a case of its own (same tree, same symbolic links)."""
+    h = case["history"][k]
+    return {"files": reattribute(case["files"], h["call"]), "call": h["call"], "alldirs": all_dirs(case),
+            "enum_seed": "%s/h%d" % (case.get("enum_seed", 0), k), "variants": []}
 
 
 def ty_json(t, tmp: Path) -> dict:
@@ -378,6 +416,15 @@ def hard(o: dict) -> dict:
 
 def run_on_tree(tmp: Path, case: dict) -> dict:
     seed = case.get("enum_seed", 0)
+    hist: typing.List[dict] = []
+    for k, h in enumerate(case.get("history", [])):
+        sc = step_case(case, k)
+        o = one_call(tmp, sc, h["variant"], sc["enum_seed"]) if h.get("variant", "base") != "base" else None
+        if o is None:
+            o = one_call(tmp, sc, "base", sc["enum_seed"])
+        assert o is not None
+        hist.append({"out": hard(o), "nest": o.get("_nest", []), "soft_cls": o.get("soft_cls"), "soft_path": o.get("soft_path"),
+                     "soft_msg": o.get("soft_msg")})
     base = one_call(tmp, case, "base", seed)
     assert base is not None
     inv: typing.List[str] = []
@@ -391,6 +438,8 @@ def run_on_tree(tmp: Path, case: dict) -> dict:
             inv.append("PYTHONHASHSEED=%s: %s" % (hs, json.dumps(hard(o), sort_keys=True)[:300]))
     res = {"out": hard(base), "inv": inv, "nest": base.get("_nest", []),
            "soft_cls": base.get("soft_cls"), "soft_path": base.get("soft_path"), "soft_msg": base.get("soft_msg")}
+    if case.get("history"):
+        res["hist"] = hist
     if case.get("perturb"):
         p = case["perturb"]
         old = case["files"][p["idx"]]
@@ -688,6 +737,35 @@ def spec_eval(files: typing.List[dict], call: dict) -> dict:
     return res
 
 
+def identity_problem(files: typing.List[dict], call: dict, out: dict) -> typing.Optional[str]:
+    """C15 stated directly on every returned type, recomputed from nothing but its own path: source_file_path names a file of
+    the tree, source_file_path_to_root is the designated directory that holds it, and name / version / port-ID are those
+    spelled by the path below that directory - whatever else the call was expected to do."""
+    have = {file_rel(f) for f in files}
+    dirs = call_dirs(call)
+    for role in ("direct", "transitive"):
+        for t in out.get(role) or []:
+            what = "%s.%s.%s" % (t["n"], t["v"][0], t["v"][1])
+            path, root = str(t["path"]), str(t["root"])
+            if path not in have:
+                return "C15/identity-wrong: source_file_path of %s is %r: no such file was given" % (what, path)
+            pc, rc = path.split("/"), root.split("/")
+            owners = [d for d in dirs if pc[: len(d)] == d and len(pc) > len(d)]
+            if call["fn"] == "ns" and role == "direct":
+                owners = [d for d in owners if d == list(call["root"])]
+            if rc not in owners:
+                return "C15/identity-wrong: source_file_path_to_root of %s (%s) is %r, the designated root director%s %s" % (
+                    what, path, root, "y is" if len(owners) == 1 else "ies are", ["/".join(d) for d in owners])
+            p = parse_strict(pc[-1])
+            if p is None:
+                continue  # int() leniency (finding F10) and leading zeros are judged (or left alone) by the expectation below
+            name = ".".join([rc[-1]] + pc[len(rc):-1] + [p[1]])
+            for a, g, w in (("n", t["n"], name), ("v", list(t["v"]), [p[2], p[3]]), ("pid", t["pid"], p[0])):
+                if g != w:
+                    return "C15/identity-wrong: %s of the type read from %s under root %s is %r, the path says %r" % (a, path, root, g, w)
+    return None
+
+
 # ------------------------------------------------------------------------------------------------ generators
 
 ROOT_LAYOUTS = [
@@ -856,7 +934,16 @@ def gen_graph(rng: random.Random, prop: str) -> dict:
         j = rng.randrange(len(files))
         f = files[j]
         p = parse_strict(f["fname"])
-        files.append({"dir": f["dir"], "sub": f["sub"], "fname": fname_of(swap_case(p[1]), p[2], p[3]), "text": mk_text([["prim", 8]], ["sealed"])})
+        tw = swap_case(p[1])
+        # EXCLUDED INPUT CLASS (reported as an observation on the unchanged pydsdl, see the C09 entry of reg/ns.py): a reference
+        # that spells the twin exactly, written in a definition the original depends on.  While the original is being read it
+        # is taken off the lookup list, so the reference finds only the twin and resolves, although read from anywhere else the
+        # same reference is a DataTypeNameCollisionError (two names differing by case only).  Such a reference only arises
+        # when a case-swapped reference to the original meets its twin; the twin is then not added.
+        spelled = any(st[0] == "ref" and st[1] in (tw, ".".join([f["dir"][-1]] + f["sub"] + [tw]))
+                      for g in files for sec in g["text"]["secs"] for st in sec["stmts"])
+        if not spelled:
+            files.append({"dir": f["dir"], "sub": f["sub"], "fname": fname_of(tw, p[2], p[3]), "text": mk_text([["prim", 8]], ["sealed"])})
     elif x < (0.25 if prop == "C09" else 0.12):  # the same name and version in a second directory of the same root namespace name
         same = [(a, b) for a in layout for b in layout if a != b and a[-1] == b[-1]]
         if same:
@@ -1010,12 +1097,17 @@ def gen_names(rng: random.Random, prop: str) -> dict:
         d = rng.choice(layout)
         sub = list(rng.choice(SUBS + [["x", "y", "z", "w", "v"], ["alpha"], ["beta", "alpha"]]))
         x = rng.random()
+        is_srv = rng.random() < 0.12
         if x < 0.82:
             short = rng.choice(SHORTS + ["Bc_d9", "_x", "Zz"])
             ma, mi = rng.choice(VERSIONS + [(255, 255), (10, 20), (0, 255)])
-            pid = rng.choice([None, None, None, 6200, 6201, 7000, 6144, 7167, 0, 0, 1, 8191, 8192])
+            # port-IDs: absent, regulated, unregulated, and both ends of the valid ranges (0 .. 8191 subjects, 0 .. 511 services)
+            if is_srv:
+                pid = rng.choice([None, None, None, 300, 301, 256, 383, 0, 0, 1, 511, 512])
+            else:
+                pid = rng.choice([None, None, None, 6200, 6201, 7000, 6144, 7167, 0, 0, 1, 8191, 8192])
             if d[-1] == "uavcan" and pid is not None:
-                pid = rng.choice([7168, 7200, 8191])
+                pid = rng.choice([384, 400, 511] if is_srv else [7168, 7200, 8191])
             fn = fname_of(short, ma, mi, pid, rng.choice(["dsdl", "dsdl", "dsdl", "uavcan"]))
         elif x < 0.93:
             fn = rng.choice(MALFORMED)
@@ -1032,11 +1124,13 @@ def gen_names(rng: random.Random, prop: str) -> dict:
             continue
         used.add(k)
         used.add(k2)
-        files.append({"dir": d, "sub": sub, "fname": fn, "text": mk_text([["prim", rng.choice([8, 16])]], ["sealed"])})
+        resp = {"stmts": [["prim", 8]] * rng.randint(0, 1), "mode": ["sealed"]} if is_srv else None
+        files.append({"dir": d, "sub": sub, "fname": fn, "text": mk_text([["prim", rng.choice([8, 16])]], ["sealed"], resp)})
     if not any(is_def_file(f["fname"]) for f in files):
         files.append({"dir": layout[0], "sub": [], "fname": "A.1.0.dsdl", "text": mk_text([], ["sealed"])})
     call = gen_call(rng, files, layout, rng.choice(["ns", "files", "files"]))
-    call["allow_unreg"] = False
+    # unregulated port-IDs (0, 1, 7000, 8191, ...) are only accepted with the flag: both settings are needed to see them in a result
+    call["allow_unreg"] = rng.random() < 0.45
     return {"files": files, "call": call, "enum_seed": rng.randrange(10**6)}
 
 
@@ -1073,6 +1167,122 @@ def gen_dirs(rng: random.Random, prop: str) -> dict:
             cut = rng.randint(0, len(lks))
             call = {"fn": "files", "targets": [rng.choice(mine)], "roots": [list(root)] + lks[:cut], "lookups": lks[cut:], "allow_unreg": False}
     return {"files": files, "call": call, "enum_seed": rng.randrange(10**6)}
+
+
+# characters that sort below the path separator '/' (0x2F) and above it: a sibling named <D><c>... sorts between D and D/<sub>
+# as a string exactly when c < '/', although as a path it is simply another directory next to D
+LOW_TAILS = ["-ext", "+legacy", ".old", " copy", ",v", "!", "#1", "-", "$x", "&co", "(1)", "%20", "'s", "-ext-2", ".d"]
+HIGH_TAILS = ["_v2", "2", "s", ":x", "=", "@home", "~", "X", "_"]
+
+
+def gen_dirs_universe(rng: random.Random, prop: str) -> dict:
+    """Directory-argument sets of 2-6 directories whose names are string prefixes of each other (plus punctuation or letters),
+    nested at depth 1-3, also inside the look-alike siblings, in all argument orders (C10 directory rule)."""
+    w = rng.choice(["w0", "w1"])
+    base = rng.choice(["alpha", "vendor", "a", "uavcan", "Beta", "x_1"])
+    D = [w, base]
+    s1, s2, s3 = rng.sample(["x", "sub", "y", "deep", "z9"], 3)
+    lo = rng.sample(LOW_TAILS, 3)
+    hi = rng.sample(HIGH_TAILS, 2)
+    uni: typing.List[list] = [D, D + [s1], D + [s1, s2], D + [s1, s2, s3], D + [s3]]
+    uni += [[w, base + t] for t in lo + hi]                         # siblings of D whose names extend D's name
+    uni += [[w, base + lo[0], s1], [w, base + hi[0], s1]]           # nested inside a sibling
+    uni += [D + [s1 + lo[1]], D + [s1 + hi[1]], D + [s1 + lo[2], s2]]  # the same one level further down
+    uni += [[w, swap_case(base)], ["w1" if w == "w0" else "w0", base], [w, "other"], [w, "other", base], [w]]
+    n = rng.randint(2, 6)
+    dirs: typing.List[list] = []
+    if rng.random() < 0.6:
+        # an ancestor, something inside it, and look-alike siblings of the ancestor in between (as strings)
+        k = rng.choice([0, 0, 1])
+        anc = uni[k]
+        desc = rng.choice([u for u in uni[:5] if len(u) > len(anc) and u[: len(anc)] == anc])
+        sib = [anc[:-1] + [anc[-1] + t] for t in rng.sample(lo + lo + hi, rng.randint(1, 2))]
+        dirs = [anc, desc] + sib
+        if rng.random() < 0.25:
+            dirs.remove(rng.choice([anc, desc]))  # ... and the same set without the nesting: must be accepted
+    while len(dirs) < n:
+        d = rng.choice(uni)
+        if d not in dirs:
+            dirs.append(d)
+    dirs = [list(d) for d in dirs]
+    rng.shuffle(dirs)
+    root = dirs[0]
+    files: typing.List[dict] = []
+    for d in dirs:
+        if rng.random() < (0.9 if d == root else 0.35):
+            outer = min([e for e in dirs if d[: len(e)] == e], key=len)
+            fn = fname_of(rng.choice(SHORTS), 1, rng.randint(0, 3))
+            if not any(file_rel(f) == "/".join(d + [fn]) for f in files):
+                files.append({"dir": outer, "sub": d[len(outer):], "fname": fn, "text": mk_text([["prim", 8]], ["sealed"])})
+    lks = [list(x) for x in dirs[1:]]
+    if rng.random() < 0.2:
+        lks.append(list(root))
+    rng.shuffle(lks)
+    mine = [i for i, f in enumerate(files) if f["dir"] == root]
+    if rng.random() < 0.7 or not mine:
+        call = {"fn": "ns", "root": list(root), "lookups": lks, "allow_collision": rng.random() < 0.6, "allow_unreg": False}
+    else:
+        cut = rng.randint(0, len(lks))
+        call = {"fn": "files", "targets": [rng.choice(mine)], "roots": [list(root)] + lks[:cut], "lookups": lks[cut:], "allow_unreg": False}
+        rng.shuffle(call["roots"])
+    return {"files": files, "call": call, "enum_seed": rng.randrange(10**6)}
+
+
+def prefix_related(a: list, b: list) -> bool:
+    return a[: len(b)] == b or b[: len(a)] == a
+
+
+def gen_history(rng: random.Random, case: dict) -> None:
+    """Turn the case into a sequence of calls on one tree in one process: the same files under other roots (a directory inside
+    a root designated as the root, the directory above a root designated as the root), other lookups, targets, flags."""
+    files, call0 = case["files"], case["call"]
+    base_dirs: typing.List[list] = []
+    for d in [f["dir"] for f in files] + call_dirs(call0):
+        if list(d) not in base_dirs:
+            base_dirs.append(list(d))
+    cands: typing.List[list] = []
+    for f in files:
+        if not is_def_file(f["fname"]):
+            continue
+        for k in range(1, len(f["sub"]) + 1):
+            cands.append(list(f["dir"]) + list(f["sub"][:k]))  # a directory inside the root
+        if len(f["dir"]) >= 2:
+            cands.append(list(f["dir"][:-1]))                   # the directory above the root
+    calls: typing.List[dict] = []
+    for _ in range(rng.choice([1, 1, 2, 3])):
+        x = rng.random()
+        unreg = bool(call0["allow_unreg"]) if rng.random() < 0.7 else rng.random() < 0.5
+        if x < 0.55 and cands:
+            root = rng.choice(cands)
+            others = [d for d in base_dirs if not prefix_related(d, root) or rng.random() < 0.05]
+            lks = rng.sample(others, rng.randint(0, len(others)))
+            view = reattribute(files, {"fn": "ns", "root": root, "lookups": []})
+            mine = [i for i, f in enumerate(view) if f["dir"] == root and is_def_file(f["fname"])]
+            if rng.random() < 0.5 or not mine:
+                c = {"fn": "ns", "root": root, "lookups": lks, "allow_collision": True, "allow_unreg": unreg}
+            else:
+                cut = rng.randint(0, len(lks))
+                c = {"fn": "files", "targets": rng.sample(mine, rng.randint(1, min(3, len(mine)))), "roots": [root] + lks[:cut], "lookups": lks[cut:], "allow_unreg": unreg}
+                rng.shuffle(c["roots"])
+        elif x < 0.7:
+            c = json.loads(json.dumps(call0))  # the same call with another flag / fewer lookups
+            c["allow_unreg"] = not c["allow_unreg"] if rng.random() < 0.6 else c["allow_unreg"]
+            if c["lookups"] and rng.random() < 0.5:
+                c["lookups"].pop(rng.randrange(len(c["lookups"])))
+        else:
+            lay = [d for d in base_dirs if any(f["dir"] == d for f in files)] or base_dirs
+            c = gen_call(rng, files, lay, "files" if call0["fn"] == "ns" else rng.choice(["ns", "files"]))
+            c["allow_unreg"] = unreg
+        calls.append(c)
+    seq = [call0] + calls
+    main = seq.pop(0 if rng.random() < 0.5 else rng.randrange(len(seq)))
+    rng.shuffle(seq)
+    case["files"] = reattribute(files, main)
+    case["call"] = main
+    case["history"] = []
+    for c in seq:
+        names = NS_VARIANTS if c["fn"] == "ns" else FILES_VARIANTS
+        case["history"].append({"call": c, "variant": rng.choice(names) if rng.random() < 0.5 else "base"})
 
 
 def gen_perturb(rng: random.Random, case: dict) -> None:
@@ -1157,9 +1367,13 @@ class NsSuite(common.Suite):
                 add_variants(rng, c, 1)
             elif prop == "C15":
                 c = gen_names(rng, prop) if x < 0.8 else gen_graph(rng, prop)
+                if rng.random() < 0.35:
+                    gen_history(rng, c)
                 add_variants(rng, c, 4)
             elif prop == "C10":
-                c = gen_dirs(rng, prop) if x < 0.3 else gen_graph(rng, prop)
+                c = (gen_dirs(rng, prop) if x < 0.15 else gen_dirs_universe(rng, prop)) if x < 0.3 else gen_graph(rng, prop)
+                if x >= 0.3 and rng.random() < 0.08:
+                    gen_history(rng, c)
                 add_variants(rng, c, 3)
             elif prop == "C19":
                 c = gen_graph(rng, prop) if x < 0.85 else gen_versions(rng, prop)
@@ -1167,6 +1381,8 @@ class NsSuite(common.Suite):
                 c["variants"] = []
             else:
                 c = gen_graph(rng, prop)
+                if rng.random() < 0.08:
+                    gen_history(rng, c)
                 add_variants(rng, c, 2)
             out.append(c)
         return out
@@ -1220,6 +1436,13 @@ class NsSuite(common.Suite):
             out.append(ns([F(A, [], "A.1.0.dsdl", S())], lookups=[["w0", "alpha", "x"]]))
             out.append(ns([F(A, [], "A.1.0.dsdl", S()), F(["w1", "Alpha"], [], "A.1.0.dsdl", S())], lookups=[["w1", "Alpha"]], allow_collision=False))
             out.append(ns([F(A, [], "A.1.0.dsdl", S()), F(["w1", "Alpha"], [], "A.1.0.dsdl", S())], lookups=[["w1", "Alpha"]], allow_collision=True))
+            # look-alike siblings: as strings they sort between a directory and what lies inside it; as paths they are unrelated
+            V = ["w0", "vendor"]
+            for tail in ("-ext", "+legacy", ".old", " copy", "_v2"):
+                sib = ["w0", "vendor" + tail]
+                out.append(ns([F(V, [], "A.1.0.dsdl", S()), F(V, ["sub"], "B.1.0.dsdl", S())], root=V, lookups=[V + ["sub"], sib], variants=["reorder", "dup", "link"]))
+                out.append(ns([F(V, [], "A.1.0.dsdl", S()), F(V, ["sub"], "B.1.0.dsdl", S())], root=V, lookups=[sib, ["w0", "other", "sub"]], variants=["reorder", "rel"], allow_collision=False))
+                out.append(fl([F(V + ["sub", "deep"], [], "C.1.0.dsdl", S())], [0], [V + ["sub", "deep"], sib], [V], variants=("dup", "slash")))
         if prop == "C11":
             E = lambda n: mk_text([], ["extent", n])  # noqa: E731
             out.append(ns([F(A, [], "6200.A.1.0.dsdl", S()), F(A, [], "6200.B.1.0.dsdl", S())]))
@@ -1250,6 +1473,23 @@ class NsSuite(common.Suite):
                 out.append(ns([F(A, [], fn, S()), F(A, [], "Z.1.0.dsdl", S())], variants=[]))
             out.append(ns([F(A, ["bad.dir"], "A.1.0.dsdl", S())], variants=[]))
             out.append(ns([F(["w0", "al.pha"], [], "A.1.0.dsdl", S())], root=["w0", "al.pha"], variants=[]))
+            # both ends of the port-ID ranges, with and without the flag that admits unregulated port-IDs
+            Sv = mk_text([], ["sealed"], {"stmts": [], "mode": ["sealed"]})
+            for unreg in (True, False):
+                out.append(ns([F(A, [], "0.Zero.1.0.dsdl", S()), F(A, [], "8191.Top.1.0.dsdl", S()), F(A, ["x"], "0.ZeroSvc.1.0.dsdl", Sv),
+                               F(A, ["x"], "511.TopSvc.2.7.dsdl", Sv), F(A, [], "Plain.1.0.dsdl", S())], allow_unreg=unreg, variants=["rel"]))
+            out.append(fl([F(A, [], "0.Zero.1.0.dsdl", S()), F(A, ["x"], "1.One.0.1.dsdl", S())], [0, 1], [A]))
+            out[-1]["call"]["allow_unreg"] = True
+            # one tree, several calls in one process, each designating another directory as the root namespace
+            AX = A + ["x"]
+            inner = ns([F(AX, [], "6200.Leaf.1.2.dsdl", S()), F(AX, ["y"], "Deep.0.3.dsdl", S()), F(A, [], "Top.1.0.dsdl", S())], root=AX, variants=["rel"])
+            inner["history"] = [{"call": {"fn": "ns", "root": A, "lookups": [], "allow_collision": True, "allow_unreg": False}, "variant": "base"}]
+            out.append(inner)
+            outer = fl([F(A, ["x"], "6200.Leaf.1.2.dsdl", S()), F(A, ["x", "y"], "Deep.0.3.dsdl", S()), F(A, [], "Top.1.0.dsdl", S())], [0, 2], [A], variants=("names", "relcwd"))
+            outer["history"] = [{"call": {"fn": "ns", "root": A, "lookups": [], "allow_collision": True, "allow_unreg": False}, "variant": "link"},
+                                {"call": {"fn": "files", "targets": [0, 1], "roots": [AX], "lookups": [], "allow_unreg": False}, "variant": "names"},
+                                {"call": {"fn": "ns", "root": ["w0"], "lookups": [], "allow_collision": True, "allow_unreg": True}, "variant": "base"}]
+            out.append(outer)
         if prop == "C19":
             base = ns([F(A, [], "A.1.0.dsdl", S(["ref", "beta.D", 1, 0], ["print", 1])), F(B, [], "D.1.0.dsdl", S()), F(B, [], "6200.E.1.0.dsdl", S()), F(B, [], "E.1.1.dsdl", S())], lookups=[B])
             base["variants"] = []
@@ -1324,6 +1564,20 @@ class NsSuite(common.Suite):
     def oracle(self, case, impl, prop):
         if "out" not in impl:
             return "%s/no-outcome: the call did not come back (%s)" % (prop, ",".join(sorted(impl)))
+        # every call of the sequence is judged as if it were the only one ever made (what a fresh process would give)
+        hist = impl.get("hist") or []
+        for k, h in enumerate(hist[: len(case.get("history", []))]):
+            sc = step_case(case, k)
+            d = self.oracle_one(sc, h, prop)
+            if d is not None:
+                head, _, tail = d.partition(":")
+                return "%s:%s [call %d of %d made in one process on the same tree: %s]" % (head, tail, k + 1, len(hist) + 1, _s(sc["call"], 240))
+        d = self.oracle_one(case, impl, prop)
+        if d is not None and hist:
+            d += " [last of %d calls made in one process on the same tree]" % (len(hist) + 1)
+        return d
+
+    def oracle_one(self, case, impl, prop):
         out = impl["out"]
         if out["res"].startswith("harness-error"):
             return None
@@ -1333,6 +1587,10 @@ class NsSuite(common.Suite):
         cls = impl.get("soft_cls")
         if prop == "C19":
             return self.oracle_c19(case, impl, exp)
+        if prop == "C15" and res == "ok":
+            d = identity_problem(files, call, out)
+            if d is not None:
+                return d
         if exp["res"] == "unspecified":
             return None
         reason = exp["reason"]
@@ -1458,15 +1716,29 @@ class NsSuite(common.Suite):
             c = dict(case)
             c.pop("hashseeds")
             yield c
+        for k in range(len(case.get("history", []))):
+            c = json.loads(json.dumps(case))
+            c["history"].pop(k)
+            if not c["history"]:
+                c.pop("history")
+            yield c
+        for k, h in enumerate(case.get("history", [])):
+            if h.get("variant", "base") != "base":
+                c = json.loads(json.dumps(case))
+                c["history"][k]["variant"] = "base"
+                yield c
         for k in range(len(files)):
             if case.get("perturb") and case["perturb"]["idx"] == k:
                 continue
             if call["fn"] == "files" and k in call["targets"] and len(call["targets"]) == 1:
                 continue
+            if any(h["call"]["fn"] == "files" and h["call"]["targets"] == [k] for h in case.get("history", [])):
+                continue
             c = json.loads(json.dumps(case))
             c["files"].pop(k)
-            if call["fn"] == "files":
-                c["call"]["targets"] = [t - (1 if t > k else 0) for t in call["targets"] if t != k]
+            for cc in [c["call"]] + [h["call"] for h in c.get("history", [])]:
+                if cc["fn"] == "files":
+                    cc["targets"] = [t - (1 if t > k else 0) for t in cc["targets"] if t != k]
             if c.get("perturb") and c["perturb"]["idx"] > k:
                 c["perturb"]["idx"] -= 1
             yield c
@@ -1520,6 +1792,44 @@ class NsSuite(common.Suite):
                 yield "transitive:nonempty"
             if any(t["refs"] for t in out["direct"]):
                 yield "nested:yes"
+        dirs = []
+        for d in call_dirs(call):
+            if d not in dirs:
+                dirs.append(d)
+        nested = [(a, b) for a in dirs for b in dirs if len(b) > len(a) and b[: len(a)] == a]
+        if nested:
+            yield "dirs:nested-pair"
+        look = [(a, b) for a in dirs for b in dirs if a != b and a[:-1] == b[:-1] and b[-1].startswith(a[-1])]
+        for a, b in look:
+            yield "dirs:sibling-name-extends-name:" + ("below-slash" if b[-1][len(a[-1])] < "/" else "above-slash")
+        if any(x == a and y[-1][len(a[-1])] < "/" for a, _ in nested for x, y in look):
+            yield "dirs:ancestor+descendant+sibling-sorting-between"
+        if any(not COMP_RE.match(d[-1]) for d in dirs):
+            yield "dirs:name-with-punctuation"
+        yield "dirs:%d" % min(len(dirs), 8)
+        if case.get("history"):
+            yield "history:%d" % len(case["history"])
+            here = call_dirs(call)
+            for h, ho in zip(case["history"], impl.get("hist") or []):
+                there = call_dirs(h["call"])
+                if any(len(a) > len(b) and a[: len(b)] == b for a in there for b in here):
+                    yield "history:inner-directory-as-root-earlier"
+                if any(len(a) > len(b) and a[: len(b)] == b for a in here for b in there):
+                    yield "history:outer-directory-as-root-earlier"
+                if sorted(there) == sorted(here):
+                    yield "history:same-directories"
+                yield "history-fn:%s->%s" % (h["call"]["fn"], call["fn"])
+                yield "history-res:" + str((ho.get("out") or {}).get("res"))
+                if h.get("variant", "base") != "base":
+                    yield "history-spelling:" + h["variant"]
+        for f in case["files"]:
+            p = parse_strict(f["fname"]) if is_def_file(f["fname"]) else None
+            if p and p[0] is not None and p[0] in (0, 1, 511, 512, 8191, 8192):
+                yield "port-id-boundary:%d" % p[0]
+        if call.get("allow_unreg"):
+            yield "allow-unregulated"
+            if out.get("res") == "ok" and any(t["pid"] == 0 for t in out["direct"]):
+                yield "result:port-id-0"
         for v in case.get("variants", []):
             yield "spelling:" + v
         if case.get("hashseeds"):
